@@ -183,8 +183,9 @@ def judge(op, impl_out, spec_out):
     if impl_out.startswith("EXC:") or impl_out.startswith("EXIT:"):
         return ({"kind": "exception", "metric": a[1]}, "%s ended in %s" % (op[:200], impl_out))
     if a[0] in ("gencont", "contscore"):
-        if spec_out is None:   # no valid pair (through the tool's own path): NaN, never a number
-            if a[0] == "contscore" and impl_out != "nan":
+        if spec_out is None:   # no spec reply: either no valid pair, or the driver was not available
+            no_pairs = a[0] == "contscore" and sum(_doc_table(a[2], from_xr(a[3]), from_xr(a[4]), from_xvec(a[5]), from_xvec(a[6]))) == 0
+            if no_pairs and impl_out != "nan":   # (through the tool's own path): NaN, never a number
                 return ({"kind": "empty-table", "metric": a[1]}, "score %s from no valid pair" % impl_out)
             return None
         if spec_out.startswith("ERR"):
